@@ -21,7 +21,7 @@ def run_chunk(args):
     base, k, cases = args
     d = os.path.join(base, "w%d" % k); os.makedirs(d)
     jf = os.path.join(d, "job.json"); json.dump({"base": d, "cases": cases}, open(jf, "w"))
-    p = subprocess.run(["/venv/bin/python", WORKER, jf], env=dict(os.environ, PYTHONPATH="/repo", PYTHONDONTWRITEBYTECODE="1"), capture_output=True, text=True, timeout=1700)
+    p = subprocess.run(["/venv/bin/python", WORKER, jf], env=dict(os.environ, PYTHONPATH=os.environ.get("VERIF_REPO", "/repo"), PYTHONDONTWRITEBYTECODE="1"), capture_output=True, text=True, timeout=1700)
     if not os.path.exists(jf + ".out"):
         raise RuntimeError("evict worker failed: " + p.stderr[-500:])
     res = json.load(open(jf + ".out")); shutil.rmtree(d, ignore_errors=True)
